@@ -79,6 +79,9 @@ func VerifH_C20_reqstep() {
 	}
 	n, ok, dupAuth := refReqStep(s, name, value)
 	vAssume(!dupAuth)
+	// a declared length above MaxRequestBodySize is refused early with
+	// ENHANCE_YOUR_CALM: that is C13's limit, not a malformed message
+	vAssume(!(ok && n.hasCL && n.cl > uint64(sc.maxRequestBodySize)))
 
 	fr := AcquireFrameHeader()
 	h := AcquireFrame(FrameHeaders).(*Headers)
